@@ -1194,11 +1194,35 @@ Proof.
   lia.
 Qed.
 
-Lemma ps_ok_inv c s p : sysinv c s p -> ps_ok p (snap_of (epA s)) (snap_of (epB s)) = true.
+Lemma acks_fly_seen cs :
+  Forall (seg_ok m) cs -> acks_of cs <> [] -> existsb seg_has_ack cs = true.
+Proof.
+  induction cs as [|b t IH]; intros Hf Hne; [exfalso; apply Hne; reflexivity|].
+  pose proof (Forall_inv Hf) as (Hdec & (EH & _) & _). pose proof (Forall_inv_tail Hf) as Ht.
+  cbn [existsb]. unfold acks_of in Hne. cbn [flat_map] in Hne. fold (acks_of t) in Hne.
+  unfold seg_has_ack at 1. rewrite Hdec. destruct (seg_of b) as [h p]. cbn [fst snd] in *. rewrite EH.
+  unfold get_ack in Hne. destruct (fA h); [reflexivity|]. cbn [negb andb orb app] in *. apply IH; assumption.
+Qed.
+
+Lemma ps_ok_inv c s p :
+  sysinv c s p ->
+  ps_ok p (snap_of (epA s)) (snap_of (epB s))
+        (existsb seg_has_ack (chAB s) || existsb seg_has_ack (chBA s)) = true.
 Proof.
   intros (H2 & Hfa & Hfb & Hoa & Hob). unfold ps_ok.
   rewrite Hfa, Hfb, (win_ok_inv _ _ _ _ _ _ _ _ H2), (win_ok_inv _ _ _ _ _ _ _ _ (sysinv2_sym _ _ _ _ _ _ _ _ H2)).
-  unfold snap_of. cbn [n_rack andb]. rewrite Hoa, Hob, !N.eqb_refl. reflexivity.
+  unfold snap_of at 1 2. cbn [n_rack andb]. rewrite Hoa, Hob, !N.eqb_refl. cbn [andb].
+  destruct H2 as (_ & _ & Hd1 & Hd2 & HJ & _).
+  assert (HsAB : Forall (seg_ok m) (chAB s)).
+  { destruct Hd1 as (? & ? & ? & _ & _ & _ & _ & _ & _ & _ & _ & _ & _ & H1 & _). exact H1. }
+  assert (HsBA : Forall (seg_ok m) (chBA s)).
+  { destruct Hd2 as (? & ? & ? & _ & _ & _ & _ & _ & _ & _ & _ & _ & _ & H1 & _). exact H1. }
+  unfold snap_of. cbn [n_swin n_slevel].
+  destruct (N.eqb_spec (slevel (send (sess (epA s)))) 0) as [Ea|]; [|rewrite !andb_false_r; reflexivity].
+  destruct (N.eqb_spec (slevel (send (sess (epB s)))) 0) as [Eb|]; [|rewrite !andb_false_r; reflexivity].
+  destruct (HJ Ea Eb) as [Hx|Hx].
+  - rewrite (acks_fly_seen _ HsAB Hx). rewrite orb_true_r. reflexivity.
+  - rewrite (acks_fly_seen _ HsBA Hx). rewrite !orb_true_r. reflexivity.
 Qed.
 
 (** one step of the system, judged by the monitor *)
@@ -1323,41 +1347,15 @@ Qed.
 
 Lemma pmon_run_inv c ops : forall s p,
   sysinv c s p ->
-  pmon_run p (map is_data_seg (chAB s)) (map is_data_seg (chBA s)) ops (snd (sys_run c s ops)) = true.
+  pmon_run p (chAB s) (chBA s) ops (snd (sys_run c s ops)) = true.
 Proof.
   induction ops as [|o ops IH]; intros s p Hinv; [reflexivity|].
   rewrite sys_run_cons. cbn [snd pmon_run].
   destruct (sys_step_inv c s p o Hinv) as (p' & Hstep & Hinv' & HcAB & HcBA).
   cbv zeta in *.
   set (s' := fst (sys_step c s o)) in *. set (r := snd (sys_step c s o)) in *.
-  assert (Ehd : match o with
-                | SDeliver SB => match map is_data_seg (chAB s) with b :: _ => b | [] => false end
-                | SDeliver SA => match map is_data_seg (chBA s) with b :: _ => b | [] => false end
-                | _ => false
-                end =
-                match o with
-                | SDeliver SB => match chAB s with b :: _ => is_data_seg b | [] => false end
-                | SDeliver SA => match chBA s with b :: _ => is_data_seg b | [] => false end
-                | _ => false
-                end).
-  { destruct o as [x d|x t|x|x]; try reflexivity. destruct x; [destruct (chBA s)|destruct (chAB s)]; reflexivity. }
-  rewrite Ehd, Hstep.
-  rewrite (ps_ok_inv _ _ _ Hinv'). cbn [andb].
-  assert (EA : match o, r with
-               | SPoll SA _, RBytes (x :: l) => map is_data_seg (chAB s) ++ [is_data_seg (x :: l)]
-               | SDeliver SB, _ => tl (map is_data_seg (chAB s))
-               | _, _ => map is_data_seg (chAB s)
-               end = map is_data_seg (chAB s')).
-  { rewrite HcAB. destruct o as [[]?|[]?|[]|[]]; destruct r as [|[|? ?]| | | |];
-      rewrite ?map_app, ?map_tl; reflexivity. }
-  assert (EB : match o, r with
-               | SPoll SB _, RBytes (x :: l) => map is_data_seg (chBA s) ++ [is_data_seg (x :: l)]
-               | SDeliver SA, _ => tl (map is_data_seg (chBA s))
-               | _, _ => map is_data_seg (chBA s)
-               end = map is_data_seg (chBA s')).
-  { rewrite HcBA. destruct o as [[]?|[]?|[]|[]]; destruct r as [|[|? ?]| | | |];
-      rewrite ?map_app, ?map_tl; reflexivity. }
-  rewrite EA, EB. apply IH. exact Hinv'.
+  unfold head_is_data. rewrite Hstep, <- HcAB, <- HcBA.
+  rewrite (ps_ok_inv _ _ _ Hinv'). cbn [andb]. apply IH. exact Hinv'.
 Qed.
 
 Lemma sys_run_inv c ops : forall s p,
